@@ -68,7 +68,7 @@ Theorem C14_catch_options_carry_error : forall e,
     /\ dict_get d k_code = Some (code_entry e)
     /\ dict_get d k_level = Some (level_entry e)
     /\ v_as_int (code_entry e) = inr (rcode_as_int (effective_code e))
-    /\ v_as_int (level_entry e) = inr (Z.of_N (x_level e)).
+    /\ v_as_int (level_entry e) = inr (to_i64 (Z.of_N (x_level e))).
 Proof. exact return_options_entries. Qed.
 Print Assumptions C14_catch_options_carry_error.
 
